@@ -17,6 +17,9 @@ class PrimEnc(Stream):
     shard = 250
 
     def generate(self, rng, tier):
+        if tier != "quick":
+            # strings of 16 Ki units are slow in the bit-list specification: small shards, long timeout
+            self.shard, self.eval_timeout = 40, 7200
         return A.prim_cases(rng, tier, deep_lens=[8192])     # the X.691 specification works on bit lists: few long strings
 
     def coq_case(self, c, o):
